@@ -21,6 +21,7 @@
 #include "nmtools/array/array/concatenate.hpp"
 #include "show.hpp"
 #include "c04_common.hpp"
+#include "c04_typed.hpp"
 
 namespace ix = nmtools::index;
 namespace view = nmtools::view;
@@ -207,6 +208,13 @@ static std::string handle(const Case& c) {
         auto a = make_array(c.args[0]); auto b = make_array(c.args[1]);
         if (c.args[2].kind == 'N') return show(na::concatenate(a, b, None));
         return show(na::concatenate(a, b, (int)c.args[2].val));
+    }
+    if (op == "tconcat_e") {       // tconcat_e T:lhs T:rhs I:axis|N   operands of different element types (pairs of with_typed_pair)
+        auto ta = parse_typed(c.args[0].raw), tb = parse_typed(c.args[1].raw);
+        return with_typed_pair(ta, tb, [&](const auto& a, const auto& b) -> std::string {
+            if (c.args[2].kind == 'N') return show(na::concatenate(a, b, None));
+            return show(na::concatenate(a, b, (int)c.args[2].val));
+        });
     }
     return "unsupported";
 }
